@@ -140,6 +140,9 @@ func main() {
 	if which == "all" || which == "transport" {
 		transportPart(seed)
 	}
+	if which == "all" || which == "wt" {
+		wtPart(seed)
+	}
 	if which == "all" || which == "grun" {
 		grunPart(seed)
 	}
